@@ -21,6 +21,9 @@ se == <<233>>           \* e-acute
 sj == <<26085>>         \* CJK
 sastral == <<128512>>   \* astral plane
 s1 == <<49>>  strue == <<116, 114, 117, 101>>  snull == <<110, 117, 108, 108>>
+\* digit strings whose numeric and lexicographic orders differ: "9", "10"
+s9 == <<57>>
+s10 == <<49, 48>>
 
 IMin == -1000000002   IMin1 == -1000000001   IMax1 == 1000000001   IMax == 1000000002
 FHuge == 1000000001   FTinyV == 1000000003
@@ -28,7 +31,7 @@ FHuge == 1000000001   FTinyV == 1000000003
 \* values that a rule literal can express
 ULit == <<I(IMin1), I(-1), I(0), I(1), I(2), I(IMax1), I(IMax),
           F(0), F(500), F(1500), F(FHuge), F(FTinyV),
-          S(<<>>), S(sa), S(sab), S(sb), S(se), S(sj), S(sastral), S(s1), S(strue), S(snull),
+          S(<<>>), S(sa), S(sab), S(sb), S(se), S(sj), S(sastral), S(s1), S(s9), S(s10), S(strue), S(snull),
           B(TRUE), B(FALSE), N,
           L(<<>>), L(<<I(1)>>), L(<<I(1), I(2)>>), L(<<I(2), I(1)>>), L(<<S(sa)>>),
           M(<<>>, <<>>), M(<<ka>>, <<I(1)>>), M(<<ka, kb>>, <<I(1), I(2)>>),
